@@ -5,6 +5,7 @@ package verifharness
 import (
 	"bytes"
 	"fmt"
+	"math"
 	"reflect"
 	"strings"
 
@@ -132,6 +133,13 @@ func applyStep(st *C08Step, r rs, b *builder) (got rs, pieces []rs, err error) {
 		return redact.Sprintf("%s", []interface{}{r, other.ToBytes()}), []rs{"[", r, " ", other, "]"}, nil
 	case "Map":
 		return redact.Sprint(map[string]rs{"k": r}), []rs{"map[" + startS + "k" + endS + ":", r, "]"}, nil
+	case "MapNaN":
+		// (a key that is not equal to itself: the entry cannot be looked up again)
+		return redact.Sprint(map[float64]rs{math.NaN(): r}), []rs{"map[" + startS + "NaN" + endS + ":", r, "]"}, nil
+	case "MapArrKey":
+		return redact.Sprint(map[interface{}]interface{}{[2]float64{math.NaN(), 1}: r}), []rs{"map[[" + startS + "NaN" + endS + " " + startS + "1" + endS + "]:", r, "]"}, nil
+	case "MapMulti":
+		return redact.Sprint(map[int]rs{2: other, 1: r, 3: r}), []rs{"map[" + startS + "1" + endS + ":", r, " " + startS + "2" + endS + ":", other, " " + startS + "3" + endS + ":", r, "]"}, nil
 	case "IMap":
 		return redact.Sprint(map[string]interface{}{"k": r}), []rs{"map[" + startS + "k" + endS + ":", r, "]"}, nil
 	case "Struct":
